@@ -3,6 +3,7 @@ package rules
 import (
 	"fmt"
 	"go/token"
+	"go/types"
 	"strings"
 
 	"dtnverif/core"
@@ -234,7 +235,123 @@ func errNilGuardValue(conds []core.Cond, v ssa.Value) bool {
 	return false
 }
 
+// checkServiceSends: a goroutine started by the adapter's Start (the reader,
+// the writer) serves the link for the adapter's whole life. A blocking send
+// from such a goroutine on one of the adapter's own channels is acceptable
+// only if a permanently running goroutine of the adapter receives from that
+// channel, or the channel is handed to the outside (Channel()); a channel
+// that is read only on demand (e.g. only while a Send is in progress) fills
+// up and blocks the service goroutine for good.
+func checkServiceSends(p *core.Program, r *core.Report, pkgRel, typ string) {
+	start := p.Func(pkgRel, typ, "Start")
+	pkg := p.Pkg(pkgRel)
+	service := map[*ssa.Function]bool{}
+	var work []*ssa.Function
+	core.EachInstr(start, func(in ssa.Instruction) {
+		if g, ok := in.(*ssa.Go); ok {
+			if f := g.Common().StaticCallee(); f != nil && !service[f] {
+				service[f] = true
+				work = append(work, f)
+			}
+		}
+	})
+	nRoots := len(work)
+	for len(work) > 0 {
+		f := work[len(work)-1]
+		work = work[:len(work)-1]
+		visit := func(g *ssa.Function) {
+			if g != nil && g.Pkg == pkg && g.Blocks != nil && !service[g] {
+				service[g] = true
+				work = append(work, g)
+			}
+		}
+		for _, a := range f.AnonFuncs {
+			visit(a)
+		}
+		core.EachInstr(f, func(in ssa.Instruction) {
+			if c, ok := in.(ssa.CallInstruction); ok {
+				if _, isGo := in.(*ssa.Go); !isGo {
+					visit(c.Common().StaticCallee())
+				}
+			}
+		})
+	}
+	r.Count("service goroutines started by "+typ+".Start", nRoots)
+	r.Min("service goroutines started by "+typ+".Start", 1)
+	chanField := func(v ssa.Value) string {
+		if u, ok := v.(*ssa.UnOp); ok && u.Op == token.MUL {
+			if owner, field, ok := core.FieldOwner(u.X); ok && owner.Obj().Name() == typ {
+				return field
+			}
+		}
+		return ""
+	}
+	// who receives from which channel field, who returns it
+	recvInService, recvElsewhere, escapes := map[string]bool{}, map[string]bool{}, map[string]bool{}
+	for _, fn := range p.RepoFuncs() {
+		if fn.Pkg != pkg {
+			continue
+		}
+		core.EachInstr(fn, func(in ssa.Instruction) {
+			mark := func(f string) {
+				if f == "" {
+					return
+				}
+				if service[fn] {
+					recvInService[f] = true
+				} else {
+					recvElsewhere[f] = true
+				}
+			}
+			switch x := in.(type) {
+			case *ssa.UnOp:
+				if x.Op == token.ARROW {
+					mark(chanField(x.X))
+				}
+			case *ssa.Select:
+				for _, st := range x.States {
+					if st.Dir == types.RecvOnly {
+						mark(chanField(st.Chan))
+					}
+				}
+			case *ssa.Return:
+				for _, res := range x.Results {
+					if f := chanField(res); f != "" {
+						escapes[f] = true
+					}
+				}
+			}
+		})
+	}
+	n := 0
+	for fn := range service {
+		core.EachInstr(fn, func(in ssa.Instruction) {
+			snd, ok := in.(*ssa.Send)
+			if !ok {
+				return
+			}
+			f := chanField(snd.Chan)
+			if f == "" {
+				return
+			}
+			n++
+			key := fmt.Sprintf("service-never-blocks/%s/%s<-", fname(fn), f)
+			rule := "a goroutine serving the link for the adapter's whole life sends blockingly on an own channel only if a permanently running goroutine receives from it (or it is the status channel handed to the manager); a channel that is read only on demand must be fed without blocking (select with default)"
+			switch {
+			case recvInService[f]:
+				r.OK(key, rule, p.Pos(snd.Pos()), "drained by a service goroutine")
+			case escapes[f]:
+				r.OK(key, rule, p.Pos(snd.Pos()), "status channel handed out by a getter; drained by the cla.Manager")
+			default:
+				r.Fail(key, rule, p.Pos(snd.Pos()), fmt.Sprintf("%s.%s is received from only on demand (receivers outside the service goroutines: %v): once its buffer is full this goroutine blocks for ever, nothing is received any more and Close waits for it", typ, f, recvElsewhere[f]))
+			}
+		})
+	}
+	r.Count("blocking sends in service goroutines of "+typ, n)
+}
+
 func checkBBC(p *core.Program, r *core.Report) {
+	checkServiceSends(p, r, bbcPkg, "Connector")
 	rf := p.Func(bbcPkg, "IncomingTransmission", "ReadFragment")
 	// payload append guarded by the four checks
 	nApp := 0
